@@ -1,4 +1,5 @@
 import ComposeVerif.Model.Include
+import ComposeVerif.Model.IncludeResolve
 import ComposeVerif.Model.Template
 /-!
 # An executable world for `Include.applyInclude` (driver side of the C06 correspondence)
@@ -174,8 +175,17 @@ def loadYaml (D : FSData) : Nat â†’ String â†’ String â†’ List String â†’ Env â†
   | n + 1 => fun wd L files env chain =>
     let W := worldOf D (loadYaml D n)
     (loadFiles D W wd L env chain files []).bind fun dict =>
-    (resolvePaths D.home wd dict).bind fun r => .ok (sortKVs' r)
+    (resolvePaths D.home wd dict).bind fun r =>
+    -- the sub-load of `ApplyInclude` always runs with a non-empty chain: the included branch
+    .ok (sortKVs' (resolveModelEnv true env r))
 
 def world (D : FSData) (fuel : Nat) : World := worldOf D (loadYaml D fuel)
+
+/-- the same files loaded *on their own* (`len(included) == 0`: `ResolveEnvironment`, all three resolvers); its
+includes are included loads (`loadYaml`) -/
+def loadYamlOwn (D : FSData) (n : Nat) (wd L : String) (files : List String) (env : Env) : Out KVs :=
+  let W := worldOf D (loadYaml D n)
+  (loadFiles D W wd L env [] files []).bind fun dict =>
+  (resolvePaths D.home wd dict).bind fun r => .ok (sortKVs' (resolveModelEnv false env r))
 
 end CV.Include
